@@ -9,6 +9,7 @@ THEOREMS = ["EngineModel.Properties.C07V1." + t for t in [
     "C07_refines",
     "C07_queries_agree_with_spec",
     "C07_forest_wellformed",
+    "C07_children_descendants_roots_from_parent",
     "C07_invalid_name_rejected_without_effect",
     "C07_failed_call_changes_nothing",
     "C07_cycle_reparent_rejected",
